@@ -229,6 +229,10 @@ PROBES = [
     ('=print(A1)', ['print(A1)']), ('getattr(x, y)', ['getattr(x, y)']), ('  compile(s)  ', ['compile(s)']),
     ('SUM(A1:A2)', []), ('=IF(A1>0;MAX(B1;2);3)', []), ('=SUM(A1)+COUNT(B1:B2)', []), ('text', []), ('', []), ('(1+2)', []),
     ('a (b)', []), ('x(', []), ('A1', []), ('3.5', []), ('TRUE', []), ('=VLOOKUP(A1;B1:C5;2)', []), ('ROUND(1.5;0)', []),
+    # call syntax inside the quoted text of a formula is call syntax all the same (the gate does not parse the formula); cells that
+    # also contain an upper-case call are outside the statement ("... and no upper-case function call")
+    ('="eval(1)"&A1', ['eval(1)']), ('=A1&"; os.system(1)"', ['system(1)']),
+    ('="a" & foo(1) & "b"', ['foo(1)']), ("='quoted(1)'", ['quoted(1)']),
 ]
 VALUE_PROBES = [(12.5, []), (7, []), (None, []), (True, []), (0, [])]
 
